@@ -143,8 +143,12 @@ pub fn rtu_body_len(dir: RtuDir, after_addr: &[u8]) -> Result<Option<usize>, ()>
 #[derive(Clone, Debug, PartialEq, Eq)]
 pub enum RtuItem {
     Frame { addr: u8, pdu: Vec<u8> },
-    /// framing error (unknown function, too long, CRC mismatch): the model stops
+    /// framing error (unknown function, too long): the model stops
     Error,
+    /// a complete frame of `total` bytes (length derived from function code / byte count) whose CRC does not
+    /// verify. It is never acted on; whether the session ends or the frame is skipped is the implementation's
+    /// choice (C06 demands the former of neither, C07 allows both)
+    BadCrc { total: usize },
 }
 
 /// Parse as many RTU frames as possible from a contiguous byte string.
@@ -175,7 +179,7 @@ pub fn rtu_deframe(dir: RtuDir, data: &[u8]) -> (Vec<RtuItem>, usize) {
         let crc = crc16(&rest[..total - 2]);
         let got = rest[total - 2] as u16 | ((rest[total - 1] as u16) << 8);
         if crc != got {
-            out.push(RtuItem::Error);
+            out.push(RtuItem::BadCrc { total });
             break;
         }
         out.push(RtuItem::Frame {
